@@ -82,7 +82,7 @@ CHECKS = {
         category="other", design_ref="DESIGN.md §5 C01/C08",
         technique="contract-based deductive verification of the quoting helpers and two lemmas over their contracts (E1 string VCs, z3); run-time round-trip contract over IR(n) for the property itself",
         text="PROVED (thin lemmas, all strings): quote, unquote and code_quoted meet exact functional contracts; unquote(quote(s)) == s for non-empty unquoted s; quote(quote(s)) == quote(s); marker-set lemma: the characters that make _parse_out_default_and_doc classify a typed default as a code expression never occur in repr() of an int, float, complex or bool (rule over the real frozenset constant), so no numeric default is code-quoted on the way back. "
-             "BOUNDED only — this is where the property itself is decided, and only within the bound: pi(parse(emit(ir, style, flags))) == pi'(ir) on the real emitter/parser over the docstring-representable slice of IR(n) x 3 styles x emit_default_doc x emit_types, plus a ReST word-wrap sweep. Five known-finding classes on the pinned tree (None default, Google/NumPy return type, NumPy without types, negative int without types).",
+             "BOUNDED only — this is where the property itself is decided, and only within the bound: pi(parse(emit(ir, style, flags))) == pi'(ir) on the real emitter/parser over the docstring-representable slice of IR(n) x 3 styles x emit_default_doc x emit_types, plus a ReST word-wrap sweep. Six known-finding classes on the pinned tree (None default, Google/NumPy return type, NumPy without types, negative int without types).",
         note="Assumed: CPython's repr() of numbers uses only the characters 0-9 . e + - i n f a j ( ) and the letters of True/False. No contract within reach of the engine carries the scanners/parsers (_scan_phase_*, _parse_phase_*, extract_default: casefold comparisons, literal_eval, ~600 lines of index arithmetic); the bounded part is a stand-in, not a proof."),
     "C02": dict(
         category="other", design_ref="DESIGN.md §5 C02",
@@ -124,7 +124,7 @@ CHECKS = {
         category="other", design_ref="DESIGN.md §5 C12",
         technique="contract-based frame verification (write-frame, dominance and shape rules over the real ast of cdd/shared/conformance.py); the property's oracle through the real CLI on file triples for the rest",
         text="PROVED (thin frame lemmas, rule engine): _conform_filename writes only through emit.file.file on its own (normalised) filename; the in-place rewrite is dominated by `not cmp_ast(original, replacement)` and `rewrite_at_query.replaced`, so an already conforming target is not written; ground_truth only reads the truth file and hands every listed file of every kind to _conform_filename. "
-             "BOUNDED only — and mostly known findings on the pinned tree: that each target re-parses to the truth's interface, unrelated code survives, and a second run is byte-identical, over truth kind x initial state of the three targets (same / other / missing / empty), two runs each. Five known-finding classes (method and argparse targets are never replaced; missing method file crashes; empty/missing files are appended to on every run).",
+             "BOUNDED only — and mostly known findings on the pinned tree: that each target re-parses to the truth's interface, unrelated code survives, and a second run is byte-identical, over truth kind x initial state of the three targets (same / other / missing / empty), two runs each. Six known-finding classes (method and argparse targets are never replaced; missing method file crashes; empty/missing files are appended to on every run).",
         note="The repair of the findings is not small (RewriteAtQuery never replaces a FunctionDef node), so they are recorded, not fixed."),
 }
 
@@ -149,7 +149,10 @@ m = {
         {"name": "cddvc-E5", "path": "cddvc/termination.py", "serves_properties": ["C11"], "kind_free_text": "termination rules over the import-aware call graph (cddvc/callgraph.py)"},
     ],
     "checks": [],
-    "notes": "All checks: ./check <ID> [--tier quick|thorough]; exit 0 held, 1 violation, 2 undecided, 3 engine error. See DESIGN.md.",
+    "notes": "All checks: ./check <ID> [--tier quick|thorough]; exit 0 held, 1 violation, 2 undecided, 3 engine error. See DESIGN.md (§10 is the as-built account). "
+             "A failed SHAPE rule (rule-engine obligation over the ast) is a violation only when the clause it carries then fails on the real code for a targeted input; otherwise it is undecided (exit 2). "
+             "A contract that mentions a name the source no longer binds does not attach: undecided, never a refutation. "
+             "The thorough tier also runs the negative controls (must be killed) and benign controls (must stay quiet) of controls/<ID>.py when the run itself is clean.",
     "not_applicable": [],
 }
 for p in props:
